@@ -298,7 +298,9 @@ CHECKS = {
     ),
     "C03": dict(
         title="A call through generated client and server code is faithful end to end",
-        legs=[leg("TestBedC03", module="idl", quick=(1500, 4), thorough=(15000, 16), timeout_s=3000, prefixes=["c03.", "bed."], env={"VERIF_BED_PROGRAMS": "6"})],
+        legs=[leg("TestBedC03", module="idl", quick=(1500, 4), thorough=(15000, 16), timeout_s=3000, prefixes=["c03.", "bed."], env={"VERIF_BED_PROGRAMS": "6"}),
+              # exactly-once when the connection is lost after the handler ran (HTTP, keep-alive connection reused)
+              leg("TestC03HTTPLoss", quick=(60, 2), thorough=(1500, 4), timeout_s=1800, prefixes=["c03h."])],
         level="exploration",
         technique="property-based testing (rapid) of generated Go clients, processors, publishers and subscribers for generated IDL programs, driven by reflection over in-memory, TCP, HTTP and NATS transports; oracle = recorded handler invocations and model-derived value trees",
         rule=("Per shard a batch of 6 generated programs is compiled to Go and linked with stub handlers emitted from the generated interfaces; cases: (service method incl. inherited through extends in the same file or across includes, oneway, void, throws) x "
